@@ -85,26 +85,31 @@ type c15macro struct {
 	name   string
 	params string
 	tmpl   string // template (explicit unquote forms); parameters are p, q and the rest parameter body
+	twin   bool   // the expansion uses syntax R1 does not read (parenthesised assignment): judged against the hand expansion run on the implementation
 }
 
 var c15macros = []c15macro{
-	{"inc", "[p]", `(+ (unquote p) 1)`},
-	{"twice", "[p]", `(list (unquote p) (unquote p))`},
-	{"swap", "[p q]", `(list (unquote q) (unquote p))`},
-	{"prog", "[& body]", `(begin (unquote-splicing body))`},
-	{"prog2", "[p & body]", `(let [w (unquote p)] (unquote-splicing body) w)`},
-	{"unless", "[p & body]", `(cond (unquote p) nil (begin (unquote-splicing body)))`},
-	{"arr", "[p & body]", `[(unquote p) (unquote-splicing body) 0]`},
-	{"setter", "[p q]", `(set (unquote p) (unquote q))`},
-	{"deflocal", "[p q]", `(def (unquote p) (unquote q))`},
-	{"loop2", "[& body]", `(for [(def i 0) (< i 2) (set i (+ i 1))] (unquote-splicing body))`},
-	{"fnwrap", "[p]", `((fn [z] (+ z (unquote p))) 10)`},
-	{"nest", "[p q]", `(list (list (unquote p)) [(unquote q) (list (unquote p))])`},
+	{"inc", "[p]", `(+ (unquote p) 1)`, false},
+	{"twice", "[p]", `(list (unquote p) (unquote p))`, false},
+	{"swap", "[p q]", `(list (unquote q) (unquote p))`, false},
+	{"prog", "[& body]", `(begin (unquote-splicing body))`, false},
+	{"prog2", "[p & body]", `(let [w (unquote p)] (unquote-splicing body) w)`, false},
+	{"unless", "[p & body]", `(cond (unquote p) nil (begin (unquote-splicing body)))`, false},
+	{"arr", "[p & body]", `[(unquote p) (unquote-splicing body) 0]`, false},
+	{"setter", "[p q]", `(set (unquote p) (unquote q))`, false},
+	{"deflocal", "[p q]", `(def (unquote p) (unquote q))`, false},
+	{"loop2", "[& body]", `(for [(def i 0) (< i 2) (set i (+ i 1))] (unquote-splicing body))`, false},
+	{"fnwrap", "[p]", `((fn [z] (+ z (unquote p))) 10)`, false},
+	{"nest", "[p q]", `(list (list (unquote p)) [(unquote q) (list (unquote p))])`, false},
 	// expansions that leave the surrounding loop or re-enter the surrounding function: the compiler has to know how
 	// many scopes the call site is nested in
-	{"brk", "[p]", `(cond (unquote p) (break) nil)`},
-	{"cont", "[p]", `(cond (unquote p) (continue) nil)`},
-	{"recur", "[p]", `(cond (== n 0) (unquote p) (user (- n 1)))`},
+	{"brk", "[p]", `(cond (unquote p) (break) nil)`, false},
+	{"cont", "[p]", `(cond (unquote p) (continue) nil)`, false},
+	{"recur", "[p]", `(cond (== n 0) (unquote p) (user (- n 1)))`, false},
+	// expansions that are not call forms: a parenthesised assignment, a bare symbol, an array
+	{"assign", "[p q]", `((unquote p) = (unquote q))`, true},
+	{"assign2", "[p q]", `(begin ((unquote p) := (unquote q)) (unquote p))`, true},
+	{"bare", "[p]", `(unquote p)`, false},
 }
 
 // substitute the macro's template by hand (R4 on forms)
@@ -228,14 +233,40 @@ func c15macroCase(c *engine.Ctx, m c15macro, args []*T, site gen.Ctx, viaOuter b
 	r1.RunProgram(Parse(`(def gv 0)`))
 	r1.Trace = nil
 	mo, un := r1.RunProgram(refForms)
-	if un != "" {
-		c.Count("skipped_unmodelled", 1)
-		return
-	}
 	res := runTracedText(c15prelude(), srcOf(implForms), `(def gv 0)`)
 	defer res.tr.Env.Close()
 	viol := func(clause, detail string) {
 		c.Violation(clause, "C15/macro-"+clause+"/"+key, w, detail+"\n  macro call program: "+srcOf(implForms)+"\n  hand expansion:    "+srcOf(refForms))
+	}
+	if un != "" || m.twin {
+		// forms the reference evaluator does not model (parenthesised assignment ...): "calling the macro equals
+		// writing the returned form by hand" is judged on the implementation itself, macro call vs hand expansion
+		c.Count("judged_against_hand_expansion_on_the_implementation", 1)
+		twin := runTracedText(c15prelude(), srcOf(refForms), `(def gv 0)`)
+		defer twin.tr.Env.Close()
+		tt, it := strings.Join(twin.tr.Trace, ","), strings.Join(res.tr.Trace, ",")
+		if res.r.Budget || twin.r.Budget {
+			// (an exponential recursion; a macro call in argument position is expanded every time the call runs, so the two
+			// sides do not use the same number of VM steps)
+			c.Count("twin_step_budget_exceeded_not_judged", 1)
+			return
+		}
+		switch {
+		case res.r.Panic != "":
+			viol("panic", res.r.Panic)
+		case (twin.r.Err == "") != (res.r.Err == ""):
+			viol("twin-error", fmt.Sprintf("hand expansion gives %s, macro call gives %s", twin.r, res.r))
+		case twin.r.Err == "" && twin.r.Val != res.r.Val:
+			viol("twin-value", fmt.Sprintf("hand expansion gives %s, macro call gives %s", twin.r.Val, res.r.Val))
+		case tt != it:
+			viol("twin-trace", fmt.Sprintf("effects: hand expansion [%s], macro call [%s]", tt, it))
+		}
+		gv1, gv2 := res.tr.Run("(list gv (defined? (quote x)))"), twin.tr.Run("(list gv (defined? (quote x)))")
+		if gv1.Short() != gv2.Short() {
+			viol("twin-state", fmt.Sprintf("afterwards (list gv (defined? x)) is %s after the macro call, %s after the hand expansion", gv1, gv2))
+		}
+		c.Outcome(key + "|twin|" + res.r.Short() + "|" + it)
+		return
 	}
 	mt, it := strings.Join(mo.Trace, ","), strings.Join(res.tr.Trace, ",")
 	switch {
@@ -280,8 +311,8 @@ func c15expandOnly(c *engine.Ctx, m c15macro, args []*T) {
 	r := res.tr.Run("(macexpand " + call.Text() + ")")
 	after := depthsStr(env.VerifDepths()) + "|" + strings.Join(env.VerifGlobalNames(), ",")
 	want := "(quote " + strings.TrimSuffix(strings.TrimPrefix(c15expand(m, args).Text(), "("), ")") + ")"
-	if c15expand(m, args).K == 'a' {
-		want = "" // (quote . [..]) prints differently; judged by the call form
+	if c15expand(m, args).K != 'l' {
+		want = "" // (quote . [..]) and (quote . atom) print differently; judged by the call form
 	}
 	key := m.name
 	if r.Panic != "" {
@@ -305,7 +336,7 @@ func init() {
 		ID:    "C15",
 		Level: "exploration",
 		Rule: "templates: every list/array of width 1..2 over a pool of 22 leaves (literals, ~x for 6 bindings, ~@xs for 4 lists incl. empty and nested, ~(compound), ~@(compound), traced unquotes) and width-1..2 nested containers; width 3 over the leaves; " +
-			"each in explicit form and with the reader sugar ^ ~ ~@; value compared with exact substitution (R4 inside the reference evaluator). Macros: 15 macros (three of them expanding to break / continue / a tail self-call) x all argument tuples over 6 forms x 10 call sites (top level, function, defn, loop, let, argument, cond, let inside a loop, newScope inside a loop inside a function, let+newScope inside a defn) x {direct, inside another macro's expansion}: " +
+			"each in explicit form and with the reader sugar ^ ~ ~@; value compared with exact substitution (R4 inside the reference evaluator). Macros: 18 macros (three of them expanding to break / continue / a tail self-call, three to a parenthesised assignment / a bare symbol; forms R1 does not model are judged macro call vs hand expansion on the implementation) x all argument tuples over 6 forms x 10 call sites (top level, function, defn, loop, let, argument, cond, let inside a loop, newScope inside a loop inside a function, let+newScope inside a defn) x {direct, inside another macro's expansion}: " +
 			"value/effects equal those of the hand-written expansion, stacks at rest; macexpand leaves depths and globals of the caller unchanged and prints the exact substitution",
 		Assumptions: []string{"splicing a non-list and nested syntax-quotes are outside the modelled fragment (skipped)"},
 		Run: func(c *engine.Ctx) {
